@@ -17,15 +17,30 @@
   every port, gaps ≥ 1 — so the polygon `draw_box` draws, ports ∓ 1/4 plus at most 1/4 of
   dagger slant, stays clear of the wires), vertical wires, downward edges, no crossing.
 
+  Last clause ("a diagram declared with the function-call syntax (diagramize), using its wires
+  in planar order, has the wiring its function body describes"): Model/Diagramize.lean models
+  `diagramize`, its inner `apply`, `cat.Box.__call__`, `nx2diagram` and the `networkx.DiGraph`
+  operations they use, one-for-one with their error behaviour; a function body is the data its
+  run produces (`Body`: the calls in program order with their argument wires and `offset=`, and
+  the returned tuple; a wire is a `Node` value).  PROVED: `diagramize_spec` (every planar body:
+  result well typed, `dom -> cod`, boxes = called boxes in program order, offset of each box = the
+  position of its first argument among the wires open at that moment, codomain = the returned
+  wires), `planar_sound` (the decidable predicate means what it says), and the inverse
+  `nx2diagram_diagram2nx` (for every well-typed diagram, given the `offset` attribute on the
+  nodes of boxes WITHOUT inputs — exactly what the code needs, `nx2diagram_diagram2nx_raw`,
+  `nx2diagram_needs_offset`).  What the code does outside the hypothesis is recorded as
+  theorems about concrete bodies (`ex_nonplanar_accepted`, …): these are NOT claims of C20.
+
   NOT PROVED / not modelled (oracle only, harness/props/c20.py): the two back-ends
-  (`MatBackend`, `TikzBackend`, `draw`, `draw_box`: matplotlib / file output), `nx2diagram` and
-  `diagramize` (only the fact they rely on is proved: `offset_recoverable`), bubbles
+  (`MatBackend`, `TikzBackend`, `draw`, `draw_box`: matplotlib / file output), bubbles
   (`bubble_opening`/`bubble_closing` branches of `add_box`).  No theorem here claims them.
 -/
 import Proofs.LayoutDiagram
+import Proofs.Diagramize
+import Proofs.Nx2Roundtrip
 
 namespace DV.C20
-open DV DV.Layout
+open DV DV.Layout DV.Dz
 
 /-! ### `diagram2nx` on a diagram value -/
 
@@ -204,5 +219,164 @@ def exDiagram : Diagram :=
 
 example : shapeOf exDiagram = ⟨3, [⟨2, 1, 0⟩], 2⟩ := by decide
 example : (shapeOf exDiagram).WF := by decide
+
+/-! ### `diagramize`: the function-call syntax -/
+
+/-- The decidable predicate `Body.planar` means what it says: it returns `offs` only if the body
+    uses its wires in planar order — call `k` (a box of the signature, arguments of the box's
+    domain types) takes the contiguous block at position `offs[k]` of the wires open at that
+    moment, in order, a call without arguments naming its position with `offset=`; the wires
+    left open at the end are exactly the returned tuple; and they have the declared types. -/
+theorem planar_sound (sig : List Box) (dom cod : Ty) (body : Body) (offs : List Nat)
+    (h : body.planar sig dom cod = some offs) :
+    PlanarFrom sig (inputNodes dom) 0 body.calls offs body.ret
+      ∧ body.ret.map GNode.obj? = cod.map some := by
+  unfold Body.planar at h
+  split at h
+  · rename_i hc; exact ⟨planarOffsets_sound sig _ _ _ _ _ h, hc⟩
+  · cases h
+
+/-- A diagram declared with the function-call syntax, using its wires in planar order, has the
+    wiring its function body describes: `diagramize` succeeds, the result is well typed from `dom`
+    to `cod`, its boxes are the called boxes in program order, box `k` sits at `offs[k]` — the
+    block of the then-open wires that the body passed as arguments, i.e. the position of its
+    first argument among them — and its outputs are exactly the returned wires. -/
+theorem diagramize_spec (sig : List Box) (hasId : Bool) (dom cod : Ty) (body : Body)
+    (offs : List Nat) (hid : hasId = true ∨ sig ≠ [])
+    (hp : body.planar sig dom cod = some offs) :
+    ∃ d, diagramize sig hasId dom cod body = .ok d ∧ d.WF ∧ d.dom = dom ∧ d.cod = cod
+      ∧ d.boxes = body.calls.map (·.box)
+      ∧ d.offsets = offs.map (fun (o : Nat) => (o : Int))
+      ∧ (∀ (k : Nat) (c : Call) (off : Nat), body.calls[k]? = some c → offs[k]? = some off →
+          ((openBefore (inputNodes dom) 0 body.calls offs k).drop off).take c.inputs.length
+              = c.inputs
+            ∧ ∀ w, c.inputs[0]? = some w →
+                (openBefore (inputNodes dom) 0 body.calls offs k).idxOf w = off)
+      ∧ openBefore (inputNodes dom) 0 body.calls offs body.calls.length = body.ret
+      ∧ body.ret.map GNode.obj? = d.cod.map some := by
+  obtain ⟨hpf, hc⟩ := planar_sound sig dom cod body offs hp
+  obtain ⟨d, h1, h2, h3, h4, h5, h6⟩ := diagramize_planar hid hpf hc
+  obtain ⟨h7, h8⟩ := planarFrom_openBefore sig body.calls _ 0 offs body.ret hpf
+  exact ⟨d, h1, h2, h3, h4, h5, h6,
+    fun k c off hk ho => ⟨(h7 k c off hk ho).2.2.2.1, fun w hw => planar_first_arg_index hpf hk ho hw⟩,
+    h8, by rw [h4]; exact hc⟩
+
+/-! ### `nx2diagram` inverts `diagram2nx` -/
+
+/-- `nx2diagram(diagram2nx(d)) = d` (all five fields) for every well-typed `d`, once the node of
+    every box WITHOUT inputs carries the box's offset as its `offset` attribute; nodes of boxes
+    with inputs may carry anything or nothing. -/
+theorem nx2diagram_diagram2nx (d : Diagram) (h : d.WF) (attr : Nat → OffAttr)
+    (hattr : ∀ k b o, d.boxes[k]? = some b → d.offsets[k]? = some o → b.dom = [] →
+      (attr k).get = some o) : roundTrip d attr = .ok d := roundTrip_ok h attr hattr
+
+/-- `diagram2nx` sets no such attribute (`getattr(box_node, "offset", 0)` reads 0): the raw
+    composite is the identity exactly on diagrams whose input-less boxes all sit at offset 0 … -/
+theorem nx2diagram_diagram2nx_raw (d : Diagram) (h : d.WF)
+    (h0 : ∀ (k : Nat) (b : Box) (o : Int), d.boxes[k]? = some b → d.offsets[k]? = some o →
+      b.dom = [] → o = 0) :
+    roundTrip d (fun _ => .absent) = .ok d :=
+  roundTrip_ok h _ (fun k b o hb ho hd => by rw [h0 k b o hb ho hd]; rfl)
+
+/-- `Id(a) @ s` with a state `s : 1 → a`. -/
+def exState : Diagram :=
+  let a : Ob := ⟨"a", 0⟩
+  let s : Box := { name := "s", dom := [], cod := [a] }
+  ⟨[a], [a, a], [s], [1], ⟨[a], [a, a], [⟨[a], s, []⟩]⟩⟩
+
+/-- `s @ Id(a)`. -/
+def exStateLeft : Diagram :=
+  let a : Ob := ⟨"a", 0⟩
+  let s : Box := { name := "s", dom := [], cod := [a] }
+  ⟨[a], [a, a], [s], [0], ⟨[a], [a, a], [⟨[], s, [a]⟩]⟩⟩
+
+/-- … and on other diagrams it silently returns a different diagram: for `Id(a) @ s` it returns
+    `s @ Id(a)` (documented in `nx2diagram`'s docstring: "Box nodes with no inputs need an offset
+    attribute"). -/
+theorem nx2diagram_needs_offset :
+    roundTrip exState (fun _ => .absent) = .ok exStateLeft ∧ exStateLeft ≠ exState
+    ∧ roundTrip exState (fun _ => .int 1) = .ok exState := by decide +kernel
+
+/-! ### Non-vacuity and the behaviour outside the hypothesis -/
+
+def obX : Ob := ⟨"x", 0⟩
+def obXr : Ob := ⟨"x", 1⟩
+def boxCup : Box := Box.cup obX obXr
+def boxCap : Box := Box.cap obXr obX
+def boxF : Box := { name := "f", dom := [obX, obX], cod := [obX] }
+def boxS : Box := { name := "s", dom := [], cod := [obX] }
+
+/-- The docstring example of `diagramize`:
+    `def snake(left): middle, right = cap(offset=1); cup(left, middle); return right`. -/
+def snakeBody : Body :=
+  ⟨[⟨boxCap, [], some 1⟩, ⟨boxCup, [.input obX 0, .cod obXr 0 0], none⟩], [.cod obX 1 0]⟩
+
+example : snakeBody.planar [boxCup, boxCap] [obX] [obX] = some [1, 0] := by decide +kernel
+
+/-- The snake: `Id(x) @ Cap(x.r, x) >> Cup(x, x.r) @ Id(x)`. -/
+theorem ex_snake : diagramize [boxCup, boxCap] false [obX] [obX] snakeBody
+    = .ok ⟨[obX], [obX], [boxCap, boxCup], [1, 0],
+        ⟨[obX], [obX], [⟨[obX], boxCap, []⟩, ⟨[], boxCup, [obX]⟩]⟩⟩ := by decide +kernel
+
+/-- The open wires before each call of the snake and at the end. -/
+example : openBefore (inputNodes [obX]) 0 snakeBody.calls [1, 0] 1
+    = [.input obX 0, .cod obXr 0 0, .cod obX 1 0] := by decide +kernel
+example : openBefore (inputNodes [obX]) 0 snakeBody.calls [1, 0] 2 = snakeBody.ret := by
+  decide +kernel
+
+/-- `def g(a, b, c): return f(a, c), b` — NOT planar (the arguments are not adjacent open wires)
+    and all wires have the same type: `nx2diagram` only looks up the FIRST argument
+    (drawing.py:226-227), so `diagramize` silently returns `f @ Id(x)`, i.e. `f(a, b), c`. -/
+theorem ex_nonplanar_accepted :
+    (⟨[⟨boxF, [.input obX 0, .input obX 2], none⟩], [.cod obX 0 0, .input obX 1]⟩ : Body).planar
+        [boxF] [obX, obX, obX] [obX, obX] = none
+    ∧ diagramize [boxF] false [obX, obX, obX] [obX, obX]
+        ⟨[⟨boxF, [.input obX 0, .input obX 2], none⟩], [.cod obX 0 0, .input obX 1]⟩
+      = .ok ⟨[obX, obX, obX], [obX, obX], [boxF], [0],
+          ⟨[obX, obX, obX], [obX, obX], [⟨[], boxF, [obX]⟩]⟩⟩ := by decide +kernel
+
+/-- `def g(a, b): return b, a` — the returned tuple is only type-checked position by position
+    (drawing.py:887-892, 896): a permutation of equally typed wires returns the identity. -/
+theorem ex_swap_accepted :
+    diagramize [boxF] false [obX, obX] [obX, obX] ⟨[], [.input obX 1, .input obX 0]⟩
+      = .ok (Diagram.id [obX, obX]) := by decide +kernel
+
+/-- A wire used twice (`f(a, b)` and again `f(a, b)`): `scan.index(wire)` fails, `ValueError`. -/
+theorem ex_used_twice :
+    diagramize [boxF] false [obX, obX] [obX, obX]
+      ⟨[⟨boxF, [.input obX 0, .input obX 1], none⟩, ⟨boxF, [.input obX 0, .input obX 1], none⟩],
+       [.cod obX 0 0, .cod obX 0 1]⟩ = .error (.base .value) := by decide +kernel
+
+/-- An unused wire (`def g(a, b, c): return f(a, b)`): the final `result.cod != cod` check,
+    `AxiomError`. -/
+theorem ex_unused_wire :
+    diagramize [boxF] false [obX, obX, obX] [obX]
+      ⟨[⟨boxF, [.input obX 0, .input obX 1], none⟩], [.cod obX 0 0]⟩
+      = .error (.base .axiom) := by decide +kernel
+
+/-- A call without arguments and without `offset=`: `None + …`, `TypeError`. -/
+theorem ex_missing_offset :
+    diagramize [boxS] false [obX] [obX, obX] ⟨[⟨boxS, [], none⟩], [.input obX 0, .cod obX 0 0]⟩
+      = .error (.base .type) := by decide +kernel
+
+/-- `offset=5` with one open wire is clamped by the slices (drawing.py:233-234): accepted, the
+    state lands at offset 1. -/
+theorem ex_offset_clamped :
+    diagramize [boxS] false [obX] [obX, obX]
+      ⟨[⟨boxS, [], some 5⟩], [.input obX 0, .cod obX 0 0]⟩
+      = .ok ⟨[obX], [obX, obX], [boxS], [1], ⟨[obX], [obX, obX], [⟨[obX], boxS, []⟩]⟩⟩ := by
+  decide +kernel
+
+/-- A fabricated parameter node (`f(a, Node("input", obj=x, i=7))`) becomes a second input of the
+    RESULT: declared `dom = x`, returned diagram `f : x ⊗ x → x` (nothing checks `result.dom`). -/
+theorem ex_fabricated_input :
+    diagramize [boxF] false [obX] [obX]
+      ⟨[⟨boxF, [.input obX 0, .input obX 7], none⟩], [.cod obX 0 0]⟩
+      = .ok ⟨[obX, obX], [obX], [boxF], [0], ⟨[obX, obX], [obX], [⟨[], boxF, []⟩]⟩⟩ := by
+  decide +kernel
+
+/-- The hypotheses of `nx2diagram_diagram2nx` are met by a concrete diagram with an input-less
+    box away from offset 0. -/
+example : exState.WF := ⟨rfl, rfl, rfl, rfl, by simp [exState, LArrow.WF, Chain, Layer.dom, Layer.cod]⟩
 
 end DV.C20
